@@ -55,7 +55,10 @@ def _etag(rel):
 HOSTS = ["example.com", "example.com:8080", "api.example.com", "static.example.com", "www.example.com", "[::1]:8000", "127.0.0.1:8000"]
 COOKIES = ["a=1", "a=1; b=hello; sess=abc123", 'q="quo\\"ted"; k="\\303\\251"; x=', "name=v; =bare; novalue"]
 ACCEPTS = ["*/*", "application/json", "text/html, application/json;q=0.9, */*;q=0.8", "text/*;q=0.5, image/png"]
-DATES = ["Wed, 21 Oct 2015 07:28:00 GMT", "Sun, 06 Nov 1994 08:49:37 GMT", "Mon, 01 Jan 2024 00:00:00 +0000"]
+DATES = ["Wed, 21 Oct 2015 07:28:00 GMT", "Sun, 06 Nov 1994 08:49:37 GMT", "Mon, 01 Jan 2024 00:00:00 +0000",
+         # well-formed but extreme: a zone-less or -0000 date is naive, its instant depends on the PROCESS time zone
+         "Fri, 31 Dec 9999 23:59:59 -0000", "Fri, 31 Dec 9999 23:59:59", "Mon, 01 Jan 0001 00:00:00 -0000", "Thu, 01 Jan 1970 00:00:00 -0000"]
+ZONES = ["UTC", "UTC", "Asia/Shanghai", "Pacific/Kiritimati", "America/New_York", "Pacific/Pago_Pago"]
 REFERERS = ["https://example.com/page?x=1", "http://[::1]:8000/a", "/relative/path", "https://user:pw@example.com:8443/p?q#f"]
 RANGES = ["bytes=0-4", "bytes=2-", "bytes=-3", "bytes=0-1,4-5", "bytes=0-0,2-3,5-", "bytes=1-1"]
 QUERIES = [None, b"", b"a=1", b"a=1&b=two&b=three", b"q=%E4%B8%AD&empty=", b"x", b"a=%20b+c&d=1;e=2"]
@@ -219,13 +222,13 @@ class C12(Prop):
             elif k == 2:
                 hs.append(("If-Range", formatdate(_mtime(rel), usegmt=True)))
             elif k == 3:
-                hs.append(("If-Range", t.choice(['"stale"', "Wed, 21 Oct 2015 07:28:00 GMT"])))
+                hs.append(("If-Range", t.choice(['"stale"', "Wed, 21 Oct 2015 07:28:00 GMT"] + DATES[3:])))
         k = t.draw(5)
         if k == 1:
             hs.append(("If-None-Match", t.choice(['"%s"' % _etag(rel), 'W/"%s"' % _etag(rel), '"x", "%s"' % _etag(rel), "*", '"nope"'])))
         elif k == 2:
             hs.append(("If-Modified-Since", t.choice([formatdate(_mtime(rel), usegmt=True), formatdate(_mtime(rel) - 86400, usegmt=True),
-                                                      "Wed, 21 Oct 2065 07:28:00 GMT"])))
+                                                      "Wed, 21 Oct 2065 07:28:00 GMT"] + DATES[3:])))
 
     def _body(self, t, bkind):
         """-> (body, content type, part spans)"""
@@ -247,6 +250,13 @@ class C12(Prop):
 
     def gen_plan(self, t):
         iface = t.choice(["asgi", "wsgi"])
+        if t.draw(120) == 0:
+            # a long HISTORY of requests against one Router / Files instance (fresh objects for this run): misses asked
+            # twice, hundreds of distinct paths, then ordinary matching requests - per-object state must not turn a
+            # later well-formed request into an error
+            n = t.choice([40, 300, 300, 600])
+            return {"zone": "UTC", "iface": iface, "target": "history", "n": n, "salt": t.draw(1000), "faults": [], "wire": b"GET /history HTTP/1.1\r\n\r\n",
+                    "ops": None, "file": None, "bkind": None, "valid_len": 0}
         target = t.weighted(TARGETS)
         method, path, query, body, spans = "GET", b"/", None, b"", ()
         ops, rel, wkey, bkind = None, None, target, None
@@ -307,7 +317,7 @@ class C12(Prop):
                 at_source = fixed is not None
                 if at_source:
                     cwire = fixed
-        return {"iface": iface, "target": target, "ops": ops, "file": rel, "bkind": bkind, "valid_len": len(wire), "faults": faults,
+        return {"zone": t.choice(ZONES), "iface": iface, "target": target, "ops": ops, "file": rel, "bkind": bkind, "valid_len": len(wire), "faults": faults,
                 "at_source": at_source, "wire": cwire}
 
     def describe(self, plan, variant=None):
@@ -410,7 +420,18 @@ class C12(Prop):
     # execute
     # -----------------------------------------------------------------------------------------
     def execute(self, plan, ctx, variant=None):
+        # the process time zone is part of the configuration: naive dates in headers are interpreted in it
+        from ..simclock import SimClock, installed
+        zone = plan.get("zone", "UTC")
+        if zone != "UTC":
+            ctx.fault("tz_non_utc")
+        with installed(SimClock(1_700_000_000.25), zone):
+            self._execute(plan, ctx, variant)
+
+    def _execute(self, plan, ctx, variant=None):
         iface, target = plan["iface"], plan["target"]
+        if target == "history":
+            return self._history(plan, ctx)
         ctx.actors = 1
         ctx.probe("iface_" + iface)
         ctx.probe("target_" + target)
@@ -449,6 +470,58 @@ class C12(Prop):
             self._wsgi(plan, ctx, fe)
         if not plan["faults"]:
             ctx.probe("fault_free_clean" if len(ctx.violations) == before else "fault_free_violation")
+
+    def _history(self, plan, ctx):
+        from ..httpreq import AbstractRequest
+        iface = plan["iface"]
+        ctx.actors = 1
+        ctx.probe("iface_" + iface)
+        ctx.probe("target_history")
+        ctx.fault("long_request_history")
+        apps = self._build_apps(iface)          # fresh objects: the history starts from nothing
+        n, salt = plan["n"], plan["salt"]
+        seq = [("router", "/nope-%d" % salt), ("router", "/nope-%d" % salt), ("files", "/missing-%d.txt" % salt), ("files", "/missing-%d.txt" % salt)]
+        seq += [("router", "/x%d-%d" % (salt, i)) if i % 3 else ("files", "/f%d-%d.txt" % (salt, i)) for i in range(n)]
+        seq += [("router", "/nope-%d" % salt), ("router", "/int/42"), ("router", "/str/hello"), ("router", "/"), ("files", "/a.txt"), ("files", "/missing-%d.txt" % salt),
+                ("router", "/date/2021-03-04"), ("files", "/sub/b.txt")]
+        results = []
+
+        def req(path):
+            return AbstractRequest("GET", path, headers=[("host", "example.com")], body=b"")
+
+        if iface == "wsgi":
+            for k, (which, path) in enumerate(seq):
+                peer = WsgiPeer(ctx, ctx.sched, req(path), short_reads=False, surface="wsgi")
+                peer.run(apps[which])
+                results.append((k, which, path, peer.status, peer.exc or peer.close_exc))
+        else:
+            async def scenario(loop):
+                for k, (which, path) in enumerate(seq):
+                    peer = AsgiHttpPeer(loop, ctx, ctx.sched, req(path), send_lats=(0.0,), surface="asgi")
+                    exc = None
+                    try:
+                        await apps[which](peer.scope, peer.receive, peer.send)
+                    except (SimDeadlock, SimTimeLimit, SimStepLimit):
+                        raise
+                    except Exception as e:  # noqa
+                        exc = e
+                    results.append((k, which, path, peer.status, exc))
+
+            try:
+                run_sim(scenario, ctx.sched, ctx, vcap=600.0, step_cap=2_000_000)
+            except (SimDeadlock, SimTimeLimit, SimStepLimit) as e:
+                ctx.violate("C12|%s|history|hang|%s" % (iface, type(e).__name__), str(e))
+                return
+        expect_ok = {"/int/42", "/str/hello", "/", "/a.txt", "/date/2021-03-04", "/sub/b.txt"}
+        for k, which, path, status, exc in results:
+            if exc is not None:
+                plan2 = dict(plan, wire=("GET %s HTTP/1.1 (request %d of a history of %d on one %s instance)\r\n\r\n" % (path, k + 1, len(seq), which)).encode())
+                self._judge(ctx, plan2, "history-" + which, exc)
+            elif isinstance(status, int) and status >= 500:
+                ctx.violate("C12|%s|history-%s|status-5xx|%s" % (iface, which, status), "request %d (%s)" % (k + 1, path))
+            elif path in expect_ok and status != 200:
+                ctx.violate("C12|%s|history-%s|well-formed-request-refused|%s" % (iface, which, status), "request %d (%s) of the history answered %s" % (k + 1, path, status))
+        ctx.ev("history", len(results), [r[3] for r in results[-8:]])
 
     def _app(self, plan):
         iface, target = plan["iface"], plan["target"]
